@@ -162,6 +162,10 @@ def _probe_class():
                         a = a + 1j * r.normal(size=shape)
                     if kind == "complex64":
                         a = a.astype(np.complex64)
+                    if self.probe_epoch % 2 == 1 and kind != "complex64":
+                        # every second set of values: the last element of each group is 18 decades smaller than the others (a part of
+                        # the model in another material / unit): its contributions are genuine coefficients, not round-off
+                        a[-1] *= 1e-18
                     if self.probe_inplace:
                         bk = (g.elemType.name, g.Ne, si, dof_n, bool(cplx))
                         bufs = self.__dict__.setdefault("probe_buffers", {})
@@ -209,7 +213,11 @@ def compare(simu, key, where):
     dof_n = simu.Get_dof_n(pt)
     Ndof = simu.mesh.Nn * dof_n + simu._Bc_Lagrange_dim(pt)
     got = simu.Assembly(pt)
-    ref = dense_reference(simu.Construct_local_matrix_system(pt), dof_n, Ndof)
+    loc = simu.Construct_local_matrix_system(pt)
+    ref = dense_reference(loc, dof_n, Ndof)
+    # entrywise scale: the scatter-add of the moduli (rounding bound of a sum: every coefficient is exact relative to the contributions
+    # IT receives, however small they are next to the rest of the matrix)
+    refabs = dense_reference({g: tuple(None if a is None else np.abs(np.asarray(a)) for a in arrs) for g, arrs in loc.items()}, dof_n, Ndof)
     v = []
     fps = []
     # the system the simulation keeps (Get_K_C_M_F: rebuilt only when something announced a change) is the same scatter-add
@@ -234,12 +242,27 @@ def compare(simu, key, where):
         err = np.abs(Gd - R).max() if R.size else 0.0
         if err > 1e-13 * sc:
             v.append(viol("assembly_mismatch", f"{where}: {name} differs from the dense scatter-add by {err:.3e} (scale {sc:.2e})", slot=name, **key))
+            continue
+        Ra = refabs["KCMF".index(name)].real
+        tol_ij = (1e-6 if Gd.dtype == np.complex64 or any(np.asarray(a["KCMF".index(name)]).dtype == np.complex64 for a in loc.values() if a["KCMF".index(name)] is not None) else 1e-13) * Ra
+        bad = np.abs(Gd - R) > tol_ij
+        if R.size and bad.any():
+            i, j = np.argwhere(bad)[0]
+            v.append(viol("assembly_small_entry", f"{where}: {name}[{i},{j}] = {Gd[i, j]!r}, the scatter-add of the contributions this coefficient receives is {R[i, j]!r} "
+                                                  f"(sum of their moduli {Ra[i, j]:.3e}; largest coefficient of the matrix {sc:.2e})", slot=name, **key))
     # the matrices handed out by Assembly() belong to the caller too: an in-place structural operation on them (dropping stored zeros, the
     # natural thing to do with a consistent mass matrix) must not reach the next assembly
+    import warnings
+
     for G in got:
         if hasattr(G, "eliminate_zeros") and G.nnz:
             G.data[::2] = 0.0
             G.eliminate_zeros()
+        elif hasattr(G, "eliminate_zeros") and min(G.shape) > 0:
+            # ... nor may a value written into a slot nobody contributes to (nodal forces entered by hand into the empty F)
+            with warnings.catch_warnings():
+                warnings.simplefilter("ignore")
+                G[0, 0] = -50.0
     return v, fps
 
 
